@@ -209,6 +209,7 @@ struct UdpAssociateContext<const N: usize> {
     server_session_id: u64,
     server_packet_id: u64,
     user: Option<Arc<ServerUser<N>>>,
+    bound: bool,
 }
 
 impl<const N: usize> UdpAssociateContext<N> {
@@ -231,6 +232,7 @@ impl<const N: usize> UdpAssociateContext<N> {
             server_session_id: random(),
             server_packet_id: 0,
             user: None,
+            bound: false,
         };
         let task = tokio::spawn(async move { assoc.relay(receiver).await });
         Ok(UdpAssociate { task, sender })
@@ -279,11 +281,19 @@ impl<const N: usize> UdpAssociateContext<N> {
                                     continue;
                                 },
                             };
+                            // a session belongs to the user whose key authenticated its first packet
+                            if self.bound && self.user != session.user {
+                                error!("[udp] session {} belongs to another user; client={}, peer={}", self.client_session_id, self.client_addr, peer_addr);
+                                continue;
+                            }
                             if self.check_packet_id && !self.validate_packet_id(session.packet_id) {
                                 error!("[udp] packet_id {} out of window; client={}, peer={}", session.packet_id, self.client_addr, peer_addr);
                                 continue;
                             }
-                            self.user.clone_from(&session.user);
+                            if !self.bound {
+                                self.user.clone_from(&session.user);
+                                self.bound = true;
+                            }
                             if let Err(e) = self.outbound.send_to(&content, resolved_addr).await {
                                 error!("[udp] send peer failed; client={}, peer={}/{}, error={}", self.client_addr, peer_addr, resolved_addr, e);
                                 continue;
